@@ -9,6 +9,7 @@ static void check_frame(const std::string &codec, const bytes &p, const bytes &f
         return o.fail("frame does not start/end with the markers");
     if (f.size() > 2 * p.size() + 4)
         o.fail("frame longer than 2n+4");
+    if (f.size() == 2 * p.size() + 4) o.tag("worst-case-2n+4");
     bytes body(f.begin() + 1, f.end() - 1);
     for (uint8_t b : body)
         if (b == a.start || b == a.stop)
@@ -138,6 +139,25 @@ static void gen(rng &r, const std::string &tier)
                 printf("rt %s %d %s\n", codec, len + 2 + (int)(code % 3), hex(p).c_str());
                 if (ci < 2 && (th || len <= 3))
                     printf("encvec %s %s\n", codec, hex(p).c_str());
+            }
+        }
+        // (1b) worst-case frames: every payload byte needs escaping AND the CRC
+        // needs escaping (frame length exactly 2n+4): all such payloads up to length 7 (thorough 9)
+        {
+            const uint8_t mk[3] = {a.start, a.stop, a.stub};
+            for (int len = 1; len <= (th ? 9 : 7); len++)
+            {
+                int total = 1;
+                for (int i = 0; i < len; i++) total *= 3;
+                for (int code = 0; code < total; code++)
+                {
+                    bytes p;
+                    for (int i = 0, c = code; i < len; i++, c /= 3) p.push_back(mk[c % 3]);
+                    uint8_t crc = ref_crc8(p);
+                    if (crc != a.start && crc != a.stop && crc != a.stub) continue;
+                    printf("rt %s %d %s\n", codec, len + 2, hex(p).c_str());
+                    if (ci < 2) printf("encvec %s %s\n", codec, hex(p).c_str());
+                }
             }
         }
         // (2) payloads whose CRC is each marker / escape code
